@@ -38,7 +38,7 @@ def build_jobs(prop, tier, seed, do, monitors, streams=None, want=None, monitor_
             "gen": g, "configs": configs, "configs_per_model": configs_per_model, "cost": cost,
             "monitors": monitors, "monitor_opts": monitor_opts or {}, "do": do, "orders": orders,
             "objectives_per_model": objectives_per_model,
-            "max_points": 6000 if q else 20000, "deadline_s": 100 if q else 1000, "stream": "clean",
+            "max_points": 6000 if q else 20000, "deadline_s": 60 if q else 1000, "stream": "clean",
         }
         if task_extra:
             task.update(task_extra)
